@@ -23,6 +23,7 @@ RULE = ("(a) exhaustive layout enumeration for 14 small statements (<=8 tokens; 
         "non-trivial = layout that differs from the canonical text; distinct by SHA-1 of layout text")
 ASSUMPTIONS = ["a literal continued without a leading '&' resumes in column 1 and its remainder does not start with & ! or blank",
                "no lexical token other than a character literal is split", "source form is stated to the reader as free"]
+ENUM_CASES = {"quick": 600, "thorough": 4000}
 DECIDING_MONITORS = ("layouts_compared",)
 EXHAUSTIVE = {"quick": True, "thorough": True, "note": "exhaustive only for sub-space (a) per small statement where the product is <= 2500; (b) is sampled"}
 
